@@ -11,8 +11,10 @@
                                                 einsum('...j,j->...'), the prefactor, the gated dict
      arim.scat.PointSourceScat._scat_func       np.broadcast(...).shape, np.full, gated dict, NO check
      arim.scat.crack_2d_scat (scat.py:373-462)  to_compute check, np.broadcast, ndim > 2, atleast_2d,
-                                                broadcast_arrays, zeros, the optimised / general drivers
-                                                of _scat_crack.py (crack_2d_scat_matrix / _general) with
+                                                broadcast_arrays, zeros, the IndexError of inc_theta[0]
+                                                (optimised driver, empty first axis), the optimised /
+                                                general drivers of _scat_crack.py (crack_2d_scat_matrix /
+                                                _general) with
                                                 the use_incident_L / use_incident_T flags, reshape, dict
      arim.scat._partial_one_scat_key, Scattering2d.as_freq_angles_funcs / as_angles_funcs
                                                 binding of positional / keyword `frequency`, TypeError,
@@ -20,8 +22,9 @@
      arim.scat.make_angles / make_angles_grid   linspace(-pi, pi, n, endpoint=False), meshgrid 'xy'
      Scattering2d.as_single_freq_matrices / as_multi_freq_matrices   (base class)
      Scattering2dFromFunc.__call__, SdhScat, PointSourceScat, CrackCentreScat (the flag
-       _in_matrix_calculation, the context manager _scat_matrix_calculation WITHOUT try/finally,
-       the overridden as_single_freq_matrices / as_multi_freq_matrices)
+       _in_matrix_calculation, the context manager _scat_matrix_calculation with its try/finally
+       (the flag is reset whether or not the body raises; /repo 3989d85), the overridden
+       as_single_freq_matrices / as_multi_freq_matrices)
      numpy's dtype promotion for integer-typed angles in out_theta - inc_theta + pi
 
    An n-dimensional array is a shape together with a function of the multi-index (list of nat of the
@@ -117,7 +120,9 @@ Definition atleast_2d {A} (a : nd A) : nd A :=
 Inductive scat_err : Type :=
 | EBroadcast            (* ValueError: operands could not be broadcast together / shape mismatch *)
 | EToCompute            (* ValueError: Valid 'to_compute' arguments are ... *)
-| EEmptyModes           (* IndexError: index 0 is out of bounds for axis 0 with size 0 (epsilon[0]) *)
+| EEmptyModes           (* IndexError: index 0 is out of bounds for axis 0 with size 0
+                           (epsilon[0] of sdh_2d_scat on an empty modal range; inc_theta[0] of
+                           crack_2d_scat with assume_safe_for_opt on an empty first axis) *)
 | ENotImplemented       (* NotImplementedError: more than two dimensions (crack) *)
 | EKeyError (k : string)(* KeyError: the scatterer did not return the key *)
 | ETypeError.           (* TypeError: missing / multiple values for argument 'frequency' *)
@@ -248,8 +253,11 @@ Section CrackNd.
                      | [i; j] => if use then kern (nd_at inc [i; j]) (nd_at out [i; j]) else c0 N
                      | _ => c0 N
                      end).
-  (* crack_2d_scat_matrix: inc_theta_vect = inc_theta[0]; for i in range(len(inc_theta_vect)):
-       kernel(inc_theta_vect[i], phi_out_array[:, i], ..., S[:, i]) *)
+  (* crack_2d_scat_matrix: for i in range(len(inc_theta_vect)):
+       kernel(inc_theta_vect[i], phi_out_array[:, i], ..., S[:, i])
+     where the caller (crack_2d_scat, scat.py:420) has taken inc_theta_vect = inc_theta[0]; that
+     subscript raises IndexError when the first axis is empty — the branch is in crack_2d_scat_nd,
+     so this driver is only ever run on arrays with at least one row *)
   Definition crack_matrix_nd (use : bool) (kern : T -> T -> cx) (inc out : nd T) : nd cx :=
     mkNd (nd_shape inc)
          (fun idx => match idx with
@@ -276,6 +284,11 @@ Section CrackNd.
             let outb := nd_broadcast_to comp_shape out2 in
             let useL := use_incident_L tc in
             let useT := use_incident_T tc in
+            (* if assume_safe_for_opt: inc_theta_vect = inc_theta[0]
+               IndexError: index 0 is out of bounds for axis 0 with size 0 — the (broadcast, 2-d)
+               array has no row.  The general driver loops over range(shape[0]) and returns the
+               empty arrays. *)
+            if assume_safe_for_opt && (hd 1 comp_shape =? 0) then inl EEmptyModes else
             let driver := if assume_safe_for_opt then crack_matrix_nd else crack_general_nd in
             (* final_matrices = [m.reshape(final_broadcast.shape) for m in matrices] *)
             let fin := fun use kern => nd_reshape final_shape (driver use kern incb outb) in
@@ -421,12 +434,15 @@ Section CrackObj.
     fun inc out frequency tc => crack_2d_scat_nd N (K frequency) inc out flag tc.
 
   (* with self._scat_matrix_calculation(): <body>
-       self._in_matrix_calculation = True; yield; self._in_matrix_calculation = False
-     There is no try/finally: when the body raises, the generator is not resumed after the yield and
-     the flag keeps the value True. *)
+       self._in_matrix_calculation = True
+       try: yield
+       finally: self._in_matrix_calculation = False
+     The body runs with the flag True; the flag is False afterwards whether the body returned or
+     raised (contextlib throws the exception into the generator at the yield, the finally clause runs,
+     the exception propagates).  Result of the body, flag afterwards. *)
   Definition with_matrix_flag {R} (body : scat_obj T cx -> scat_err + R) : (scat_err + R) * bool :=
     let r := body (crack_obj_call true) in
-    (r, match r with inl _ => true | inr _ => false end).
+    (r, false).
 
   Definition crack_as_single (frequency : T) (numangles : nat) (tc : list string) :=
     with_matrix_flag (fun self => as_single_freq_matrices N self frequency numangles tc).
@@ -442,7 +458,9 @@ Section CrackObj.
   | RDict (r : scat_err + dict (nd cx))
   | RMulti (r : scat_err + option (dict (nd cx))).
 
-  (* the operation applied to an object whose flag is `flag`: (result, flag afterwards) *)
+  (* the operation applied to an object whose flag is `flag`: (result, flag afterwards).  A plain call
+     reads the flag and leaves it; a matrix request sets it, runs the base-class method (which calls
+     the object with the flag True) and resets it, also when the method raises *)
   Definition crack_step (flag : bool) (op : crack_op) : crack_res * bool :=
     match op with
     | OpCall inc out f tc => (RDict (crack_obj_call flag inc out f tc), flag)
